@@ -26,6 +26,7 @@ import alggen         # noqa: E402
 import vecir          # noqa: E402
 import inventory      # noqa: E402
 import fiatir         # noqa: E402
+import cfginv         # noqa: E402
 from limbir import ItemSpec, TransErr   # noqa: E402
 
 CD = 'curve25519-dalek/src/'
@@ -981,6 +982,9 @@ def run(repo, outdir, quiet=False):
     # syntactic inventory (drop / zeroize / wipe facts, panic sites): Inventory.lean
     inv_manifest, inv_written, _inv = inventory.generate(repo, outdir, HEADER, write_if_changed, srcs)
     written.extend(inv_written)
+    # feature-gated code inside function bodies: CfgInventory.lean (stand-alone module, not part of All.lean)
+    cfg_sites, cfg_written = cfginv.generate(_inv['scans'], outdir, HEADER, write_if_changed)
+    written.extend(cfg_written)
 
     # All.lean
     mods = [m.name for m in MODULES] + ['Consts'] + [m.name for m in alggen.ALG_MODULES] \
@@ -1050,12 +1054,15 @@ def run(repo, outdir, quiet=False):
         'uncovered_fns': uncovered,
         'files': sorted(os.path.basename(x) for x in
                         [m.name + '.lean' for m in MODULES] + ['Consts.lean', 'All.lean', 'AllSh.lean',
-                                                               'gen_manifest.json', 'Inventory.lean', 'BranchInventory.lean']
+                                                               'gen_manifest.json', 'Inventory.lean', 'BranchInventory.lean', 'CfgInventory.lean']
                         + [m.name + '.lean' for m in alggen.ALG_MODULES]
                         + [m.name + 'Sh.lean' for m in alggen.ALG_MODULES]
                         + [k + '.lean' for k, _ in alggen.K_MODULES]),
     }
     manifest.update(inv_manifest)
+    manifest['cfg_gated_sites'] = len(cfg_sites)
+    manifest['cfg_gated_feature_sites_by_shape'] = dict((sh, sum(1 for x in cfg_sites if x['feature'] and x['shape'] == sh))
+                                                        for sh in sorted(set(x['shape'] for x in cfg_sites if x['feature'])))
     p = os.path.join(outdir, 'gen_manifest.json')
     if write_if_changed(p, json.dumps(manifest, indent=1, sort_keys=True) + '\n'):
         written.append(p)
